@@ -12,6 +12,8 @@
 (*   <<"N", t>>      #( t )                                                *)
 (*   <<"*", t1, .., tm>>  intersection     <<":", t1, .., tm>>  union      *)
 (*   <<"^", c>>      implementation spelling of <<"C", c>> (post-parse)    *)
+(*   <<"@", c>>      implementation spelling of "cell c itself" (a doubly  *)
+(*                   complemented cell, #c inside #( ))                    *)
 (*   <<"R", c>>      reference to a converted cell (post-fill, CellRef)    *)
 (* Anchors: MIP/geom/parsegeom.py, grammars/geom.ebnf, semantics.py,       *)
 (* CellConversion.pot_complement.                                          *)
@@ -34,7 +36,7 @@ RECURSIVE VarsOf(_, _, _)
 VarsOf(env, t, fuel) ==
   IF fuel = 0 THEN {}
   ELSE CASE IsSurf(t) -> {<<Abs(t[2]), t[3]>>}
-         [] IsCompl(t) -> IF HasCell(env, t[2]) THEN VarsOf(env, GeomOf(env, t[2]), fuel - 1) ELSE {}
+         [] IsCompl(t) \/ t[1] = "@" -> IF HasCell(env, t[2]) THEN VarsOf(env, GeomOf(env, t[2]), fuel - 1) ELSE {}
          [] t[1] = "N" -> VarsOf(env, t[2], fuel)
          [] t[1] = "R" -> {}
          [] OTHER -> UNION { VarsOf(env, t[i], fuel) : i \in Kids(t) }
@@ -45,6 +47,7 @@ Eval(env, t, a, fuel) ==
   IF fuel = 0 THEN FALSE
   ELSE CASE IsSurf(t) -> IF t[2] > 0 THEN a[<<t[2], t[3]>>] ELSE ~a[<<-t[2], t[3]>>]
          [] IsCompl(t) -> ~Eval(env, GeomOf(env, t[2]), a, fuel - 1)
+         [] t[1] = "@" -> Eval(env, GeomOf(env, t[2]), a, fuel - 1)
          [] t[1] = "N" -> ~Eval(env, t[2], a, fuel)
          [] t[1] = "*" -> \A i \in Kids(t) : Eval(env, t[i], a, fuel)
          [] t[1] = ":" -> \E i \in Kids(t) : Eval(env, t[i], a, fuel)
